@@ -118,6 +118,7 @@ type FnVC struct {
 	mergedEpochs map[int]*mergedEpoch
 	ifaceFrameProps []string
 	lazies  []*lazyQuant
+	siteN   int
 	elemLocs map[string]bool
 	skolems []skolem
 	okTerms map[string]okFact // Bool term of a comma-ok type assertion -> what it tests
